@@ -1483,7 +1483,11 @@ Error Assembler::_emit(InstId inst_id, const Operand_& o0, const Operand_& o1, c
           shift_value = o2.as<Imm>().value_as<uint64_t>();
         }
 
-        bool has_sp = o0.as<Gp>().is_sp() || o1.as<Gp>().is_sp();
+        // Rm cannot be SP (register 31 encodes ZR in this position).
+        if (!check_gp_id(o1, kZR))
+          goto InvalidPhysId;
+
+        bool has_sp = o0.as<Gp>().is_sp();
 
         // Shift operation - LSL, LSR, ASR.
         if (shift_type <= uint32_t(ShiftOp::kASR)) {
